@@ -143,8 +143,13 @@ fn gen_history(rng: &mut Prng, rules: &[Value]) -> Vec<Value> {
     ops
 }
 
-fn gen(args: &Args, emit: &mut dyn FnMut(Value)) {
+fn gen(args: &Args, emit0: &mut dyn FnMut(Value)) {
     let mut rng = Prng::new(args.seed);
+    // sub-second bounds that the model cannot tell apart are written alike (router_gen::fix_frac)
+    let emit = &mut |mut v: Value| {
+        fix_case(&mut v);
+        emit0(v)
+    };
     // diff-directed block (only when the library differs from the baseline; see router_gen::hint_block)
     for (cfg, mut rules, reqs) in hint_block(&mut rng, (args.n / 4).clamp(40, 2000)) {
         for r in rules.iter_mut() {
@@ -154,6 +159,16 @@ fn gen(args: &Args, emit: &mut dyn FnMut(Value)) {
         emit(json!({"cfg": cfg, "rules": rules, "reqs": reqs}));
     }
     for i in 0..args.n {
+        if i % 500 == 499 {
+            // always-on: 150-180 rules, v4 / v6 / mapped-block ranges, v4-mapped clients
+            let (cfg, mut rules, reqs) = big_mapped_case(&mut rng);
+            for r in rules.iter_mut() {
+                let id = r["id"].as_str().unwrap().to_string();
+                r["act"] = gen_act(&mut rng, &id);
+            }
+            emit(json!({"cfg": cfg, "rules": rules, "reqs": reqs, "big": true}));
+            continue;
+        }
         let cfg = gen_cfg(&mut rng);
         let n = rng.range(1, if i % 4 == 0 { 4 } else { 10 });
         let mut rules = gen_rules(&mut rng, n, "r");
@@ -364,6 +379,9 @@ fn run(case: &Value) -> Obs {
         Some(Value::Array(a)) => Some(a.as_slice()),
         _ => return Obs::invalid("ops"),
     };
+    if frac_collision(rules_d) {
+        return Obs::invalid("two sub-second bounds the model cannot tell apart");
+    }
     let router = match router_of(case.get("cfg").unwrap(), rules_d, ops_d) {
         Some(r) => r,
         None => return Obs::invalid("rule or history"),
@@ -433,6 +451,12 @@ fn run(case: &Value) -> Obs {
     // compared, but they only repeat the emptiness check)
     let mut o = Obs::new(Value::Array(obs)).trivial(!any_match);
     o.tags.extend(rule_tags(rules_d));
+    if rules_d.len() >= 150 {
+        o.tags.push("big-router".into());
+    }
+    if reqs_d.iter().any(|q| q.get("ip").and_then(|i| i.as_array()).map(|a| a.len() == 8 && a[5].as_u64() == Some(0xffff)).unwrap_or(false)) {
+        o.tags.push("mapped-client".into());
+    }
     if let Some(ops) = ops_d {
         o.tags.push("history".into());
         for k in ["remove", "batch", "change", "cache"] {
